@@ -326,8 +326,14 @@ func (b *outlierDetectionBalancer) UpdateClientConnState(s balancer.ClientConnSt
 		}
 	}
 
-	for ep := range b.endpoints.All() {
+	for ep, epInfo := range b.endpoints.All() {
 		if _, ok := newEndpoints.Get(ep); !ok {
+			// An endpoint that is removed while ejected no longer counts
+			// towards the ejected endpoints used for the max ejection
+			// percentage check.
+			if !epInfo.latestEjectionTimestamp.IsZero() {
+				b.numEndpointsEjected--
+			}
 			b.endpoints.Delete(ep)
 		}
 	}
